@@ -68,6 +68,7 @@ class Flow:
         self.globals_declared: Set[str] = set()
         self._collect()
         self._solve()
+        self.cfg.flow = self
 
     # ------------------------------------------------------------------ collection
     def _add(self, d: Def):
@@ -183,6 +184,36 @@ class Flow:
         `name#<def nodes>` so that two occurrences print alike iff the same definitions reach both
         (same value within one pass through the code)."""
         return self.expand(expr, at, depth=depth, phi=False, ssa=True)
+
+    def resolve_hoisted(self, t, at: int, depth: int = 4):
+        """`c` / `not c` where c is a local with exactly one reaching definition `c = <comparison | boolean | call>`:
+        return that definition (copied), else t itself."""
+        import copy as _copy
+
+        if depth <= 0:
+            return t
+        if isinstance(t, ast.UnaryOp) and isinstance(t.op, ast.Not):
+            inner = self.resolve_hoisted(t.operand, at, depth)
+            if inner is t.operand:
+                return t
+            new = ast.UnaryOp(op=ast.Not(), operand=inner)
+            return new
+        if isinstance(t, ast.Name) and self.is_local(t.id):
+            defs = self.reaching(t.id, at)
+            if len(defs) == 1 and defs[0].kind == "assign" and isinstance(defs[0].value, (ast.Compare, ast.BoolOp, ast.Call, ast.UnaryOp, ast.Name)):
+                v = defs[0].value
+                # the operands must not be redefined between the definition and the test
+                for n in ast.walk(v):
+                    if isinstance(n, ast.Name) and self.is_local(n.id):
+                        if {id(d) for d in self.reaching(n.id, defs[0].nid)} != {id(d) for d in self.reaching(n.id, at)}:
+                            return t
+                if isinstance(v, ast.Call) and not (isinstance(v.func, ast.Name) and v.func.id in ("isinstance", "len", "bool")) and not (
+                        isinstance(v.func, ast.Attribute) and v.func.attr in ("is_compatible", "startswith", "endswith")):
+                    return t
+                r = self.resolve_hoisted(v, defs[0].nid, depth - 1)
+                c = _copy.copy(r)
+                return c
+        return t
 
     def mutated_names(self) -> Set[str]:
         """Local names that are mutated in place (method calls like append / subscript stores / del)."""
